@@ -5,7 +5,7 @@ CONSTANTS L = 1
  CheckFix = FALSE
  Bases = {}
  TreeDepth = 2
- TreeMaxEntries = 6
+ TreeMaxEntries = 5
  SimNames = 2
  SimDepth = 1
  Wanted = {}
